@@ -8,6 +8,20 @@ def _s(pkg, phase=None, **kw):
     return d
 
 PROPS = {
+    "C01": dict(
+        level="model_checking",
+        technique="stateless model checking of the verbatim Mutex sources under a controlled scheduler: all schedules within preemption/deviation bounds (CHESS-style iterative context bounding), happens-before race detection",
+        steps=[_s("h-sync", "c01")],
+        assumptions=["SC interleavings + C11 release/acquire happens-before (vector clocks); W-bounded stale reads only in the thorough tier",
+                     "the futex model (wait compares atomically, wake picks any waiter, spurious returns) stands in for the kernel; bound by the futexconf step",
+                     "bounds: <=4 threads, <=2 ops per thread, P/D budgets as listed in coverage.bounds"],
+    ),
+    "C02": dict(
+        level="model_checking",
+        technique="stateless model checking of the verbatim RwLock sources under a controlled scheduler: all schedules within preemption/deviation bounds, every wake target and hand-off branch, happens-before race detection",
+        steps=[_s("h-sync", "c02")],
+        assumptions=["same execution model as C01", "bounds: <=4 threads, <=2 ops per thread"],
+    ),
     "C10": dict(
         level="exploration",
         technique="bounded-exhaustive enumeration of all byte strings / pairs over a 4-letter alphabet through the real constructors (no sampling)",
@@ -20,5 +34,43 @@ PROPS = {
         technique="bounded-exhaustive enumeration of all operand pairs over {a,b,/,.} against naive byte-slice definitions, operands against guard pages",
         steps=[_s("h-str", "c11")],
         assumptions=["the code under test distinguishes only '/' , NUL and equality of bytes, so a 4-letter alphabet exercises every comparison outcome"],
+    ),
+
+    "C08": dict(
+        level="exploration",
+        technique="bounded-exhaustive enumeration of n x alignments x overlaps on the verbatim mem.rs in a private dlopen'ed cdylib; volatile byte-loop reference, canaries + guard pages",
+        steps=[_s("h-mem", "c08")],
+        assumptions=["sizes beyond the exhaustive window are covered only by a fixed ladder up to 1 MiB",
+                     "mem.rs is compiled with the harness profile (opt-level 2, debug assertions on), x86_64"],
+    ),
+    "C14": dict(
+        level="exploration",
+        technique="bounded-exhaustive enumeration of path shapes x prior trees, entry multisets, tree shapes, and explicit-state BFS over operation sequences on the real fs functions; std::fs as independent observer against a tree model",
+        steps=[_s("h-fs", "mkdirall"), _s("h-fs", "rwcopy"), _s("h-fs", "readdir"), _s("h-fs", "rmall"), _s("h-fs", "seq")],
+        assumptions=["Err results are not judged except where the statement fixes them (write/copy onto a directory)",
+                     "runs as root: permission failures, ENOSPC, concurrent modification not covered",
+                     "full grids on tmpfs (/dev/shm), reduced grids repeated on the std temp dir's file system"],
+    ),
+    "C15": dict(
+        level="exploration",
+        technique="bounded-exhaustive enumeration of reader/writer response scripts through the real default methods of tiny_std::io::{Read,Write} (no sampling); reference = plain concatenation",
+        steps=[_s("h-io", "c15")],
+        assumptions=["print!/println!/eprint! path (unix/print.rs) needs the syscall seam S2 (separate step when built)",
+                     "writer EINTR: retry or returning EINTR both accepted; buffer contents after an I/O error are not constrained (a String must stay valid UTF-8, and unchanged when the delivered bytes are not UTF-8)"],
+    ),
+    "C19": dict(
+        level="exploration",
+        technique="bounded-exhaustive Cartesian boundary grid (closed once under exact t+-d) through every public arithmetic/comparison op of Instant/SystemTime/MonotonicInstant against exact i128 nanosecond arithmetic, in two build profiles; clock/sleep sampled",
+        steps=[_s("h-time", "arith"),
+               _s("h-time", "arith", profile="nochk", name="arith-nochk"),
+               _s("h-time", "clock")],
+        assumptions=["operations are piecewise-linear in (sec,nsec) with comparisons against 0, 10^9 and the i64/u64 limits; the grid holds the +-2 (thorough +-3) neighbourhood of each",
+                     "monotonic clock and real sleep are SAMPLED (labelled so); exactness is exhaustive over the grid, not over the 2^128 domain"],
+    ),
+    "C20": dict(
+        level="exploration",
+        technique="bounded-exhaustive enumeration: every field-value assignment x every option permutation round-trips through the real derive output; every token list up to a length bound against an independent grammar recogniser",
+        steps=[_s("h-cli", "c20")],
+        assumptions=["15 struct shapes; repeats <= 2 per repeated field; the oracle accepts either outcome where the declared grammar leaves acceptance open"],
     ),
 }
